@@ -327,6 +327,21 @@ fn walk(node: chess_lookup::BookMoves, board: &Board, rp: &refchess::Position, p
     let my_index = book_index(node);
     let mut steps = 0u64;
     let mut any = false;
+    // the CLI picks a book move with `count()` and `nth(k)`: both must describe the same list as `next()`
+    {
+        let listed: Vec<(u8, u8, usize)> = node.into_iter().take(100_001).map(|m| (m.source as u8, m.dest as u8, book_index(m.children))).collect();
+        let counted = node.into_iter().count();
+        if counted != listed.len() {
+            w.divs.push((Divergence::new("book-count-disagrees-with-iteration", format!("after [{}]: count() = {counted} but iteration yields {} moves", path.join(" "), listed.len())), path.clone()));
+        }
+        for k in 0..=listed.len().max(counted) {
+            let got = node.into_iter().nth(k).map(|m| (m.source as u8, m.dest as u8, book_index(m.children)));
+            if got != listed.get(k).copied() {
+                w.divs.push((Divergence::new("book-nth-disagrees-with-iteration", format!("after [{}]: nth({k}) = {got:?} but iteration yields {:?}", path.join(" "), listed.get(k))), path.clone()));
+                break;
+            }
+        }
+    }
     for bm in node {
         steps += 1;
         if steps > 100_000 {
@@ -685,6 +700,25 @@ fn c19_moves(tier: Tier, d: &mut Vec<Divergence>, n: &mut u64) {
         *n += total;
         d.extend(bad.into_iter().take(20));
     }
+    // longer strings assembled from tokens: squares (valid and near-valid) joined by separator runs
+    {
+        let squares: [&[u8]; 9] = [b"e2", b"e4", b"a1", b"h8", b"E2", b"i9", b"e0", b"e", b""];
+        let seps: [&[u8]; 12] = [b"", b"-", b"--", b"---", b"----------", b" ", b"- ", b" -", b"x", b"-x", b"=", b"\x80"];
+        let tails: [&[u8]; 5] = [b"", b"q", b"-", b" ", b"e4"];
+        for a in squares {
+            for sep in seps {
+                for b in squares {
+                    for t in tails {
+                        let s: Vec<u8> = [a, sep, b, t].concat();
+                        *n += 1;
+                        if let Some(dv) = c19_move_case(&s) {
+                            d.push(dv);
+                        }
+                    }
+                }
+            }
+        }
+    }
     // display -> parse for all non-promotion moves
     for from in 0..64u8 {
         for to in 0..64u8 {
@@ -714,6 +748,19 @@ enum ItOp {
     NextBack,
     Nth(usize),
     NthBack(usize),
+}
+
+/// skip counts that a truncating cast or a wrapping shift would fold back into range
+fn big_skips() -> Vec<usize> {
+    let mut v = vec![usize::MAX, usize::MAX - 1];
+    for sh in [8u32, 16, 32, 48, 63] {
+        let base = 1usize << sh;
+        for off in [0usize, 1, 2, 5, 7] {
+            v.push(base + off);
+        }
+        v.push(base - 1);
+    }
+    v
 }
 
 fn explore_double_ended<I, T>(name: &str, fresh: I, all: &[T], d: &mut Vec<Divergence>, n: &mut u64) -> usize
@@ -748,8 +795,10 @@ where
             ops.push(ItOp::Nth(k));
             ops.push(ItOp::NthBack(k));
         }
-        ops.push(ItOp::Nth(usize::MAX));
-        ops.push(ItOp::NthBack(usize::MAX));
+        for big in big_skips() {
+            ops.push(ItOp::Nth(big));
+            ops.push(ItOp::NthBack(big));
+        }
         for op in ops {
             *n += 1;
             let mut j = it.clone();
@@ -811,7 +860,7 @@ where
         if it.clone() != it || it.clone().collect::<Vec<T>>() != all[lo..] {
             d.push(Divergence::new(format!("{name}-remaining-sequence-wrong"), format!("state {lo}..")));
         }
-        for k in (0..=rem + 1).chain([usize::MAX]) {
+        for k in (0..=rem + 1).chain(big_skips()) {
             *n += 1;
             let mut j = it.clone();
             let got = j.nth(k);
@@ -868,7 +917,7 @@ pub fn run_c19(args: &Args) -> i32 {
         json!({
             "evaluations": n,
             "distinct_nontrivial": 64 + 8 + 8 + 4096 + states,
-            "rule": "index conversions on all 256 bytes; all 64 squares / 8 files / 8 ranks for composition, neighbours, flips, text round trips; File/Rank/Piece/PromotionPiece/Pos parsers on every byte string of length 0-2 (all 256 byte values) and length 3 over a 34-symbol alphabet; ChessMove parser on all strings of length 0-5 (thorough: 0-6) over the alphabet a-h A-H 1-8 - ` @ i I 0 9 space 0x80 0xe1 (34^5 = 45 435 424 five-byte strings); Display->parse for all 4096 non-promotion moves; enumerating iterators explored to closure as state machines (ops next, next_back, nth(k), nth_back(k) for k <= len+1 and usize::MAX, size_hint, clone) against slice semantics. Non-trivial = distinct values with a text form + iterator states.",
+            "rule": "index conversions on all 256 bytes; all 64 squares / 8 files / 8 ranks for composition, neighbours, flips, text round trips; File/Rank/Piece/PromotionPiece/Pos parsers on every byte string of length 0-2 (all 256 byte values) and length 3 over a 34-symbol alphabet; ChessMove parser on all strings of length 0-5 (thorough: 0-6) over the alphabet a-h A-H 1-8 - ` @ i I 0 9 space 0x80 0xe1 (34^5 = 45 435 424 five-byte strings); Display->parse for all 4096 non-promotion moves; enumerating iterators explored to closure as state machines (ops next, next_back, nth(k), nth_back(k) for k <= len+1 and usize::MAX and values around 2^8, 2^16, 2^32, 2^48, 2^63, size_hint, clone) against slice semantics; move strings assembled from square tokens, separator runs (up to ten dashes) and tails. Non-trivial = distinct values with a text form + iterator states.",
             "iterator_states": states,
             "exhaustive": true,
             "samples": [{"input": "e2-e4", "parsed": "e2e4"}, {"input_hex": "6532e134", "parsed": Value::Null}],
